@@ -17,6 +17,8 @@ def run_case(case):
     if err is not None and err[0] != 'StepLimit':
         # crashes are C03's business; here the trace up to the crash is still checked, the crash is only labelled
         stats['crashed'] = err[0]
+    if r['model'] is None:
+        return {'viol': viol if isinstance(viol, list) else [], 'states': 0, 'outcome': 'build-error/' + r['error'][0], 'nontrivial': False, 'info': {'error': r['error']}}
     d = r['model'].pData
     oc = '%s/%s/%s' % (case.get('system'), case.get('temp'), 'pop' if stats['populated_steps'] else 'empty')
     if stats['clamped']:
